@@ -29,8 +29,8 @@ def scenario(ctx, i, kind=None):
     r = ctx.rng
     kind = kind or ["isv", "jfa", "ivector"][i % 3]
     sc = fagen.fa_scenario(r, ctx.tier, jfa=(kind == "jfa"), sessions=1)
-    K = int(r.integers(2, 4))
-    n = int(r.integers(K + 1, 9))
+    K = int(r.integers(2, 5))
+    n = int(r.integers(K + 1, 11))
     labels = np.concatenate([np.arange(K), r.integers(0, K, n - K)])
     labels = labels[r.permutation(n)]
     sts = [fagen.rand_stat(r, sc["C"], sc["D"], sc["m"], sc["v"]) for _ in range(n)]
